@@ -295,7 +295,63 @@ class WsgiModuleServer(WsgiServer):
         return super().request(method, target, headers, body)
 
 
+class MainServer(AioServer):
+    """The stand-alone server started the way `python -m xandikos` starts it: xandikos.web.main()
+    in a process of its own (run_main.py), killed for a restart."""
+    frontend = "main"
+
+    def __init__(self, root, prefix="/", principal="/user/", autocreate=True, defaults=True,
+                 index_threshold=None):
+        self.root = root
+        self.prefix = prefix if prefix.endswith("/") else prefix + "/"
+        self.kw = dict(principal=principal, autocreate=autocreate, defaults=defaults)
+        self.proc = None
+        self.port = None
+        self._start()
+
+    def _start(self):
+        import subprocess
+        import time
+        s = socket.socket(socket.AF_INET, socket.SOCK_STREAM)
+        s.bind(("127.0.0.1", 0))
+        self.port = s.getsockname()[1]
+        s.close()
+        args = ["/venv/bin/python", os.path.join(os.path.dirname(os.path.abspath(__file__)), "run_main.py"),
+                "-d", self.root, "--port", str(self.port), "--listen-address", "127.0.0.1",
+                "--route-prefix", self.prefix, "--current-user-principal", self.kw["principal"],
+                "--no-detect-systemd"]
+        if self.kw["defaults"]:
+            args.append("--defaults")
+        elif self.kw["autocreate"]:
+            args.append("--autocreate")
+        self.proc = subprocess.Popen(args, stdout=subprocess.DEVNULL, stderr=subprocess.PIPE)
+        deadline = time.time() + 30
+        while time.time() < deadline:
+            if self.proc.poll() is not None:
+                raise RuntimeError("xandikos.web.main exited: " + self.proc.stderr.read().decode("utf-8", "replace")[-800:])
+            try:
+                c = socket.create_connection(("127.0.0.1", self.port), timeout=0.5)
+                c.close()
+                return
+            except OSError:
+                time.sleep(0.05)
+        raise RuntimeError("xandikos.web.main did not start listening")
+
+    def _stop(self):
+        if self.proc is not None:
+            self.proc.kill()
+            self.proc.wait(20)
+            try:
+                self.proc.stderr.close()
+            except Exception:
+                pass
+            self.proc = None
+
+
 def make_server(frontend, root, **kw):
+    if frontend == "main":
+        kw.pop("index_threshold", None)
+        return MainServer(root, **kw)
     if frontend == "wsgi-module":
         kw.pop("index_threshold", None)
         return WsgiModuleServer(root, **kw)
